@@ -62,10 +62,29 @@ fn parse_n(n: usize, s: &str) -> Result<Result<Vec<u32>, HandError>, String> {
     }
 }
 
+/// Which standard definition of whitespace the crate's tokenisation follows, probed once on the
+/// two-card parser with U+000B and U+0085 (whitespace in Unicode, not in ASCII). Whatever the
+/// answer, that one definition is then required of every parser on every text.
+pub fn ws_def() -> text::WsDef {
+    static DEF: std::sync::OnceLock<text::WsDef> = std::sync::OnceLock::new();
+    *DEF.get_or_init(|| {
+        let vt = matches!(parse_n(2, "AS\u{b}KS"), Ok(Ok(_)));
+        let nel = matches!(parse_n(2, "AS\u{85}KS"), Ok(Ok(_)));
+        if vt && nel {
+            text::WsDef::Unicode
+        } else {
+            text::WsDef::Ascii
+        }
+    })
+}
+
 /// every hand parser on one text; returns a label for the distribution
 fn hand_clause(s: &str) -> Result<String, String> {
-    let exotic = text::has_exotic_whitespace(s);
-    let toks = text::tokens(s);
+    let def = ws_def();
+    let exotic_text = text::has_exotic_whitespace(s);
+    // with the probed definition the model is defined on every text
+    let exotic = false;
+    let toks = text::tokens_with(def, s);
     let k = toks.len();
     let cards: Vec<u32> = toks.iter().map(|t| text::card_of_token(t)).collect();
     for n in 2..=7usize {
@@ -75,12 +94,12 @@ fn hand_clause(s: &str) -> Result<String, String> {
         }
         if k < n {
             if got != Err(HandError::InvalidIndex) {
-                return Err(format!("parsing {:?} ({} tokens) as a {}-slot hand gave {:?}, expected Err(InvalidIndex): fewer tokens than slots", s, k, n, got.map(|v| card::render_hand(&v))));
+                return Err(format!("parsing {:?} ({} tokens under the {:?} definition of whitespace the crate follows elsewhere) as a {}-slot hand gave {:?}, expected Err(InvalidIndex): fewer tokens than slots", s, k, def, n, got.map(|v| card::render_hand(&v))));
             }
         } else if k == n {
             match &got {
                 Ok(v) if *v == cards => {}
-                _ => return Err(format!("parsing {:?} ({} tokens) as a {}-slot hand gave {:?}, expected [{}]: one slot per token, in token order", s, k, n, got.map(|v| card::render_hand(&v)), card::render_hand(&cards))),
+                _ => return Err(format!("parsing {:?} ({} tokens under the {:?} definition of whitespace the crate follows elsewhere) as a {}-slot hand gave {:?}, expected [{}]: one slot per token, in token order", s, k, def, n, got.map(|v| card::render_hand(&v)), card::render_hand(&cards))),
             }
         }
     }
@@ -105,7 +124,7 @@ fn hand_clause(s: &str) -> Result<String, String> {
     // the whole text as one token
     token_clause(s)?;
     let real = cards.iter().filter(|w| **w != 0).count();
-    Ok(format!("{} tokens, {} of them cards{}", k.min(8), real.min(8), if exotic { ", exotic whitespace (totality only)" } else { "" }))
+    Ok(format!("{} tokens, {} of them cards{}", k.min(8), real.min(8), if exotic_text { ", contains whitespace other than space/tab/LF/CR/FF" } else { "" }))
 }
 
 // ------------------------------------------------------------------------------------------
@@ -150,8 +169,11 @@ fn token_strategy() -> impl Strategy<Value = String> {
 
 /// texts of k tokens (k in the given range) joined and padded with the common separators
 pub fn hand_text_strategy(k: std::ops::RangeInclusive<usize>) -> impl Strategy<Value = String> {
-    let sep = proptest::collection::vec(0usize..5, 1..3).prop_map(|v| v.iter().map(|i| text::SEPARATORS[*i]).collect::<String>());
-    let pad = proptest::collection::vec(0usize..5, 0..2).prop_map(|v| v.iter().map(|i| text::SEPARATORS[*i]).collect::<String>());
+    // mostly the five common separators; now and then one that is whitespace under the Unicode
+    // definition only (U+000B, U+0085, U+00A0, U+2003) — the model follows the probed definition
+    const SEPS: [char; 16] = [' ', ' ', ' ', ' ', '\t', '\t', '\n', '\n', '\r', '\x0C', ' ', '\t', '\x0B', '\u{85}', '\u{A0}', '\u{2003}'];
+    let sep = proptest::collection::vec(0usize..16, 1..3).prop_map(|v| v.iter().map(|i| SEPS[*i]).collect::<String>());
+    let pad = proptest::collection::vec(0usize..16, 0..2).prop_map(|v| v.iter().map(|i| SEPS[*i]).collect::<String>());
     (proptest::collection::vec((token_strategy(), sep), k), pad.clone(), pad).prop_map(|(toks, lead, trail)| {
         let mut s = lead;
         let n = toks.len();
@@ -169,7 +191,7 @@ pub fn hand_text_strategy(k: std::ops::RangeInclusive<usize>) -> impl Strategy<V
 pub fn run(run: &mut Run) -> PResult {
     run.rule = "every Unicode scalar value through the rank and suit symbol tables; tokens c1 c2 tail for every pair (c1, c2) over an alphabet of all symbols, look-alikes, separators, NUL and 1-4 byte characters x 8 tails, plus empty and one-character tokens; 52 cards x 4 renderings for the round trip; proptest hand texts of 0..=9 tokens and arbitrary strings through from_index, get_rank_and_suit, five_from_index, TryFrom<&str> for Two..Seven and BinaryCard::from_index; thorough adds a libFuzzer campaign. Oracle: symbol tables + first-two-characters rule + tokenisation on the common separators. Non-trivial = tokens / texts that are not one of the canonical spellings of a card (tails, junk, multi-byte, too few or exactly N tokens with junk); distinct by 64-bit hash of the text".into();
     run.assume("texts with more tokens than slots: only totality is asserted (the statement speaks of fewer and of exactly that many)");
-    run.assume("texts containing whitespace other than space, tab, LF, CR, FF (e.g. U+000B, U+0085, U+00A0, U+2003): only totality is asserted, so the model is right under both the Unicode and the ASCII reading of 'whitespace-separated'");
+    run.assume(&format!("'whitespace' is one of the two standard definitions (Unicode White_Space or ASCII whitespace); which one the crate follows is probed on the two-card parser (this run: {:?}) and then required uniformly of every parser on every text, so either implementation passes but a mixture does not", ws_def()));
     super::regress::replay_dir(run, "C12", check_case)?;
     let thorough = run.tier == Tier::Thorough;
     // E1
@@ -216,6 +238,34 @@ pub fn run(run: &mut Run) -> PResult {
         run.sample(json!({"token": "0♡xyz 2c", "card": card::render(text::card_of_token("0♡xyz 2c"))}));
         run.sample(json!({"token": "Ａs", "card": "blank (full-width A is not a rank symbol)"}));
     }
+    // E2b: one-sided scans over all of Unicode: every character as the first character before each
+    // of the 16 suit symbols, and every character as the second character after each of the 19 rank symbols
+    {
+        use rayon::prelude::*;
+        let ranks: Vec<char> = text::RANK_SYMBOLS.chars().collect();
+        let suits: Vec<char> = text::SUIT_SYMBOLS.chars().collect();
+        let bad: Option<String> = (0..=0x10FFFFu32).into_par_iter().filter_map(char::from_u32).find_map_first(|c| {
+            for s in &suits {
+                let t: String = [c, *s].iter().collect();
+                if token_clause(&t).is_err() {
+                    return Some(t);
+                }
+            }
+            for r in &ranks {
+                let t: String = [*r, c].iter().collect();
+                if token_clause(&t).is_err() {
+                    return Some(t);
+                }
+            }
+            None
+        });
+        let n = 1_112_064u64 * 35;
+        run.generator("two-character tokens: any character + suit symbol, rank symbol + any character", "exhaustive", Some(n), n, n - 2 * 19 * 16, "closes the first-two-characters rule for all tokens in which at least one of the two leading characters is a symbol");
+        if let Some(t) = bad {
+            let m = token_clause(&t).err().unwrap_or_default();
+            return run.violation("C12.token", &t, json!({"token": t}), &m);
+        }
+    }
     // E3: render -> parse
     {
         let mut n = 0u64;
@@ -239,7 +289,7 @@ pub fn run(run: &mut Run) -> PResult {
     };
     {
         let st = engine::RStats::new();
-        let cases = if thorough { 16_000_000 } else { 1_600_000 };
+        let cases = (if thorough { 16_000_000 } else { 1_600_000 }) / if run.is_twin() { 4 } else { 1 };
         let make = || hand_text_strategy(0..=9);
         let res = pt::run_sharded(run.seed, 0xC12, cases, &make, &|s: String| match hand_clause(&s) {
             Ok(label) => {
@@ -260,7 +310,7 @@ pub fn run(run: &mut Run) -> PResult {
     // R: arbitrary strings (totality, and the oracle wherever it applies)
     {
         let st = engine::RStats::new();
-        let cases = if thorough { 8_000_000 } else { 800_000 };
+        let cases = (if thorough { 8_000_000 } else { 800_000 }) / if run.is_twin() { 4 } else { 1 };
         let make = || {
             let sg = sigma();
             let sg2 = sg.clone();
